@@ -107,29 +107,43 @@ def session_jobs(ctx):
                 part = chosen[i:i + per]
                 jobs.append({'kind': 'session', 'role': role, 'phase': phase, 'seed': rng.randint(0, 10 ** 6),
                              'chunk': rng.choice([None, None, None, 1, 7]), 'alarm': 10,
+                             'peer_version': rng.choice(H.PEER_VERSIONS), 'comp': rng.choice(H.COMPRESSIONS),
                              'labels': [l for l, _ in part], 'payloads': [p.hex() for _, p in part]})
     return jobs
 
 
 def scenario_jobs(ctx):
-    """peer-chosen channel parameters followed through: a channel is opened with every combination of extreme
-    window / maximum packet size, then used, so that the send loop runs with them"""
+    """peer-chosen channel parameters followed through: under every peer identification string asyncssh has a
+    work-around for and with compression off / on / delayed, a channel is opened with extreme window / maximum
+    packet size values, then used, so that the send loop runs with them"""
     M = H._imports()[1]
     jobs = []
-    ext = [0, 1, 2 ** 31, 2 ** 32 - 1]
-    for w in ext:
-        for m in ext:
-            seq = [M.channel_open_session(7, w, m), M.channel_request_shell(0), M.channel_data(0, b'hello' * 4),
-                   M.window_adjust(0, 2 ** 32 - 1), M.channel_data(0, b'again'), M.window_adjust(0, 1), M.channel_eof(0)]
-            jobs.append({'kind': 'session', 'role': 'server', 'phase': 'authed', 'seed': 1, 'chunk': None, 'alarm': 10,
-                         'per_conn': len(seq), 'labels': ['open(window=%d,maxpkt=%d)' % (w, m), 'shell', 'data', 'adjust(2^32-1)',
-                                                          'data', 'adjust(1)', 'eof'],
-                         'payloads': [p.hex() for p in seq]})
-            seq = [M.window_adjust(0, 2 ** 32 - 1), M.channel_data(0, b'srv'), M.window_adjust(0, 1), M.channel_close(0)]
-            jobs.append({'kind': 'session', 'role': 'client', 'phase': 'chan', 'seed': 1, 'chunk': None, 'alarm': 10,
-                         'open_params': [w, m], 'per_conn': len(seq),
-                         'labels': ['confirm(window=%d,maxpkt=%d)+write, adjust(2^32-1)' % (w, m), 'data', 'adjust(1)', 'close'],
-                         'payloads': [p.hex() for p in seq]})
+    full = ctx.tier == 'thorough'
+    pk_ext = [0, 1, 2, 3, 2 ** 31, 2 ** 32 - 1]
+    win_ext = [0, 1, 2, 2 ** 21, 2 ** 32 - 1]
+    combos = []
+    for ver in H.PEER_VERSIONS:
+        for comp in H.COMPRESSIONS:
+            quirk = 'dropbear' in ver or ver == H.PEER_VERSIONS[0]
+            for m in pk_ext:
+                for w in (win_ext if (full or (quirk and m <= 3)) else [2 ** 21]):
+                    if full or quirk or (m in (0, 1, 2 ** 32 - 1) and comp != 'zlib@openssh.com'):
+                        combos.append((ver, comp, w, m))
+    for ver, comp, w, m in combos:
+        tag = '%s,%s' % (ver[8:], comp)
+        seq = [M.channel_open_session(7, w, m), M.channel_request_shell(0), M.channel_data(0, b'hello' * 4),
+               M.window_adjust(0, 2 ** 32 - 1), M.channel_data(0, b'again'), M.window_adjust(0, 1), M.channel_eof(0)]
+        jobs.append({'kind': 'session', 'role': 'server', 'phase': 'authed', 'seed': 1, 'chunk': None, 'alarm': 10,
+                     'peer_version': ver, 'comp': comp, 'per_conn': len(seq),
+                     'labels': ['[%s] open(window=%d,maxpkt=%d)' % (tag, w, m), 'shell', 'data', 'adjust(2^32-1)',
+                                'data', 'adjust(1)', 'eof'],
+                     'payloads': [p.hex() for p in seq]})
+        seq = [M.window_adjust(0, 2 ** 32 - 1), M.channel_data(0, b'srv'), M.window_adjust(0, 1), M.channel_close(0)]
+        jobs.append({'kind': 'session', 'role': 'client', 'phase': 'chan', 'seed': 1, 'chunk': None, 'alarm': 10,
+                     'peer_version': ver, 'comp': comp, 'open_params': [w, m], 'per_conn': len(seq),
+                     'labels': ['[%s] confirm(window=%d,maxpkt=%d)+write, adjust(2^32-1)' % (tag, w, m), 'data',
+                                'adjust(1)', 'close'],
+                     'payloads': [p.hex() for p in seq]})
     return jobs
 
 
@@ -449,8 +463,14 @@ def run(ctx):
             if 'hang' in rec:
                 hang_count += 1
                 if hang_count <= 3:
-                    ctx.failing_input('the event loop was blocked for more than %d s while the %s handled %s; stack: %s' %
-                                      (job.get('alarm', H.CASE_ALARM), 'asyncssh ' + job['role'], describe(job, first), rec['hang'][-900:]), sub)
+                    import re
+                    fr = re.findall(r'File "([^"]*)", line (\d+), in (\S+)', rec['hang'])
+                    labs = (job.get('labels') or [])[first:first + 4]
+                    ctx.failing_input('the event loop was BLOCKED for more than %d s in the asyncssh %s (phase %s, peer version %s, '
+                                      'compression %s) during bring-up or one of: %s; innermost frames: %s' %
+                                      (job.get('alarm', H.CASE_ALARM), job['role'], job['phase'],
+                                       job.get('peer_version', 'default'), job.get('comp', 'none'), ' | '.join(labs) or describe(job, first),
+                                       ' <- '.join('%s:%s %s' % (os.path.basename(f), ln, fn) for f, ln, fn in reversed(fr[-5:]))), sub)
                 continue
             if 'error' in rec:
                 ctx.broke('harness:session-bringup', '%s: %s' % (describe(job, first), rec['error']))
@@ -512,7 +532,7 @@ def run(ctx):
 
 def documented(stage, func):
     if stage == 'fuzz_imports':
-        return 'ASN1DecodeError' if func == 'der_decode' else 'KeyImportError / KeyEncryptionError'
+        return 'ASN1DecodeError' if func.startswith('der_decode') else 'KeyImportError / KeyEncryptionError'
     if stage in ('fuzz_sftp_client',):
         return 'SFTPError'
     if stage == 'agent':
